@@ -635,18 +635,16 @@ fn main() {
         family("5_terms_lines", pool(ABC, 2, true, BINARY), 5, &[],
             "<= 2 lines over a/b/c, with and without final newline, + 2 binary files")
     };
-    family("5_terms_one_line", pool(ABC, 1, true, BINARY), 5, &f5,
-        "<= 1 line over a/b/c, with and without final newline, + 2 binary files");
+    if ctx.quick() {
+        // (in the thorough tier this pool is a subset of the previous one)
+        family("5_terms_one_line", pool(ABC, 1, true, BINARY), 5, &f5,
+            "<= 1 line over a/b/c, with and without final newline, + 2 binary files");
+    }
     let k5w = ctx.pick(1, 2);
     family("5_terms_words", pool(if ctx.quick() { WORDS4 } else { WORDS3 }, k5w, false, &[]), 5, &[],
         &format!("<= {k5w} lines over {}", if ctx.quick() { "'a b','c b','a d','c d'" } else { "'a b','c b','a d'" }));
     // 7 terms
-    let f7 = if ctx.quick() {
-        let files: Vec<Bytes> = [&b""[..], b"a\n", b"b\n", b"a\nb\n", b"b\na\n"].iter().map(|f| f.to_vec()).collect();
-        family("7_terms_lines", files, 7, &[], "the five files '', 'a', 'b', 'a b', 'b a' (one letter per line)")
-    } else {
-        family("7_terms_lines", pool(AB, 2, false, &[]), 7, &[], "<= 2 lines over a/b")
-    };
+    let f7 = family("7_terms_lines", pool(AB, 2, false, &[]), 7, &[], "<= 2 lines over a/b");
     if ctx.thorough() {
         family("7_terms_one_line", pool(ABC, 1, false, &[]), 7, &f7, "<= 1 line over a/b/c");
         family("7_terms_words", pool(WORDS3, 1, false, &[]), 7, &[], "<= 1 line over 'a b','c b','a d'");
